@@ -213,17 +213,27 @@ theorem recover_spec (g : Graph) (f : Edge → Rat) (st : BState) (topo : List N
                 rw [this, hqeq]; exact Rat.not_lt.1 hlt
             · exact ⟨e0, by simp [he0], by rw [hfe0, hqeq]⟩
 
-/-- what the four outcomes of `max_bottleneck_path` mean -/
+/-- what the outcomes of `max_bottleneck_path` mean. `(None, None)` covers two situations: there is
+no source-to-sink path at all (`maxBottleneckSink is None`, e.g. a graph without edges), or the best
+bottleneck over all source-to-sink paths is exactly `0`. -/
 def BottleneckSpec (g : Graph) (f : Edge → Rat) : BResult → Prop
-  | .keyError => ∀ p, ¬ IsSTPath g p
-  | .none => (∀ p, IsSTPath g p → ∃ e ∈ walkEdges p, f e ≤ 0) ∧
-      ∃ p, IsSTPath g p ∧ (∀ e ∈ walkEdges p, 0 ≤ f e) ∧ ∃ e ∈ walkEdges p, f e = 0
+  | .none => (∀ p, ¬ IsSTPath g p) ∨
+      ((∀ p, IsSTPath g p → ∃ e ∈ walkEdges p, f e ≤ 0) ∧
+        ∃ p, IsSTPath g p ∧ (∀ e ∈ walkEdges p, 0 ≤ f e) ∧ ∃ e ∈ walkEdges p, f e = 0)
   | .path q p => q ≠ 0 ∧ IsSTPath g p ∧ (∀ e ∈ walkEdges p, q ≤ f e) ∧ (∃ e ∈ walkEdges p, f e = q) ∧
       ∀ p', IsSTPath g p' → ∃ e ∈ walkEdges p', f e ≤ q
   | .stuck => False
 
-theorem mbp_keyError (g : Graph) (f : Edge → Rat) (topo : List Node) (h : (bTable g f topo).best = none) :
-    maxBottleneckPath g f topo = BResult.keyError := by
+/-- in both situations of `(None, None)` no source-to-sink path has a positive bottleneck -/
+theorem BottleneckSpec.none_le {g : Graph} {f : Edge → Rat} (h : BottleneckSpec g f .none) :
+    ∀ p, IsSTPath g p → ∃ e ∈ walkEdges p, f e ≤ 0 := by
+  intro p hp
+  rcases h with h | h
+  · exact absurd hp (h p)
+  · exact h.1 p hp
+
+theorem mbp_noSink (g : Graph) (f : Edge → Rat) (topo : List Node) (h : (bTable g f topo).best = none) :
+    maxBottleneckPath g f topo = BResult.none := by
   unfold maxBottleneckPath; simp [h]
 
 theorem mbp_some (g : Graph) (f : Edge → Rat) (topo : List Node) (m : Node) (q : Rat)
@@ -246,7 +256,8 @@ theorem maxBottleneckPath_spec (g : Graph) (f : Edge → Rat) (topo : List Node)
   cases hb : (bTable g f topo).best with
   | none =>
     rw [hb] at hbest
-    rw [mbp_keyError g f topo hb]
+    rw [mbp_noSink g f topo hb]
+    refine Or.inl ?_
     intro p hp
     obtain ⟨t, q, _, ht, hpt, hst, _⟩ := stpath_ub g f _ topo htopo hloc p hp
     exact hbest t ht ⟨hpt, hst⟩
@@ -280,8 +291,51 @@ theorem maxBottleneckPath_spec (g : Graph) (f : Edge → Rat) (topo : List Node)
     by_cases hq0 : q = 0
     · simp only [hq0, if_true]
       subst hq0
-      exact ⟨hub, pre ++ [m], hst, v1, v2⟩
+      exact Or.inr ⟨hub, pre ++ [m], hst, v1, v2⟩
     · simp only [hq0, if_false, r1]
       exact ⟨hq0, hst, v1, v2, hub⟩
+
+/-- **when `(None, None)` is returned, any edge values**: exactly when no source-to-sink path has a
+positive bottleneck and — unless there is no source-to-sink path at all — some path has a
+non-negative one (a best bottleneck `< 0` is returned as a path with that negative value) -/
+theorem maxBottleneckPath_none_iff (g : Graph) (f : Edge → Rat) (topo : List Node) (htopo : IsTopo g.edges topo) :
+    maxBottleneckPath g f topo = .none ↔
+      (∀ p, IsSTPath g p → ∃ e ∈ walkEdges p, f e ≤ 0) ∧
+      ((∃ p, IsSTPath g p) → ∃ p, IsSTPath g p ∧ ∀ e ∈ walkEdges p, 0 ≤ f e) := by
+  have hs := maxBottleneckPath_spec g f topo htopo
+  constructor
+  · intro h
+    rw [h] at hs
+    refine ⟨hs.none_le, ?_⟩
+    rintro ⟨p, hp⟩
+    rcases hs with h0 | ⟨_, p', hp', hnn, _⟩
+    · exact absurd hp (h0 p)
+    · exact ⟨p', hp', hnn⟩
+  · rintro ⟨h1, h2⟩
+    cases hm : maxBottleneckPath g f topo with
+    | none => rfl
+    | path q p =>
+      rw [hm] at hs
+      obtain ⟨hq0, hp, hmin, _, hub⟩ := hs
+      obtain ⟨e, he, hfe⟩ := h1 p hp
+      have hq : q ≤ 0 := Rat.le_trans (hmin e he) hfe
+      obtain ⟨p', hp', hnn⟩ := h2 ⟨p, hp⟩
+      obtain ⟨e', he', hfe'⟩ := hub p' hp'
+      have : 0 ≤ q := Rat.le_trans (hnn e' he') hfe'
+      exact absurd (Rat.le_antisymm hq this) hq0
+    | stuck => rw [hm] at hs; exact hs.elim
+
+/-- **when `(None, None)` is returned, non-negative edge values**: exactly when no source-to-sink path
+has a positive bottleneck — which includes the graphs without any source-to-sink path -/
+theorem maxBottleneckPath_none_iff_nonneg (g : Graph) (f : Edge → Rat) (topo : List Node)
+    (htopo : IsTopo g.edges topo) (hnn : ∀ e ∈ g.edges, 0 ≤ f e) :
+    maxBottleneckPath g f topo = .none ↔ ∀ p, IsSTPath g p → ∃ e ∈ walkEdges p, f e ≤ 0 := by
+  rw [maxBottleneckPath_none_iff g f topo htopo]
+  constructor
+  · exact fun h => h.1
+  · intro h
+    refine ⟨h, ?_⟩
+    rintro ⟨p, hp⟩
+    exact ⟨p, hp, fun e he => hnn e (hp.walk e he)⟩
 
 end FP
